@@ -34,9 +34,41 @@ def _stuck(flag):
             pass
 
 
+BUSY_S = 0.5        # the blocking step of a busy target
+REBUILD_S = 0.8     # what the parent side needs to rebuild a slow result
+
+
+def _busy(flag):
+    """One blocking step that ends by itself; a termination request surfaces when it ends (not swallowed)."""
+    open(flag + '.started', 'w').close()
+    time.sleep(BUSY_S)
+    return 'busydone'
+
+
+def _rebuild(flag, pid, secs):
+    if os.getpid() != pid:          # being rebuilt in another process (the frontend thread of the parent)
+        open(flag + '.rebuilding', 'w').close()
+        time.sleep(secs)
+    return 'slowval'
+
+
+class SlowRebuild:
+    """A result that is cheap to produce and to send, but takes the receiving side a while to rebuild."""
+
+    def __init__(self, flag):
+        self.flag, self.pid = flag, os.getpid()
+
+    def __reduce__(self):
+        return (_rebuild, (self.flag, self.pid, REBUILD_S))
+
+
 def echo(*args, **kwargs):
     """Returns what it was called with, so the merge of defaults and enqueued arguments is observed directly."""
     if args and isinstance(args[0], str):
+        if args[0] == '@busy':
+            return _busy(args[1])
+        if args[0] == '@slowres':
+            return SlowRebuild(args[1])
         if args[0] in SPECIALS:
             return _special(args[0])
         if args[0] == '@raise':
